@@ -39,6 +39,9 @@ func (e *Exec) intrinsicFor(fn *ssa.Function) intrinsic {
 	if strings.HasPrefix(name, "sync/atomic.") {
 		return inAtomic
 	}
+	if strings.HasPrefix(name, "slices.overlaps[") {
+		return inSlicesOverlaps
+	}
 	if strings.HasPrefix(name, "(*sync/atomic.Pointer[") {
 		return inAtomicPointer
 	}
@@ -1377,4 +1380,13 @@ var monoTimeIntrinsics = map[string]intrinsic{
 	"time.Since": func(e *Exec, s *State, f *Frame, fn *ssa.Function, args []Value, result ssa.Value) (stepResult, bool) {
 		return stepResult{}, false
 	},
+}
+
+// slices.overlaps: do two slices share memory? (the real body uses unsafe)
+func inSlicesOverlaps(e *Exec, s *State, f *Frame, fn *ssa.Function, args []Value, result ssa.Value) (stepResult, bool) {
+	a, b := args[0].(SliceV), args[1].(SliceV)
+	if a.Len == 0 || b.Len == 0 || a.Obj != b.Obj {
+		return e.ret(f, result, False)
+	}
+	return e.ret(f, result, Bool(a.Off < b.Off+b.Len && b.Off < a.Off+a.Len))
 }
